@@ -79,6 +79,31 @@ def cases(seed, tier):
     inj.sort(key=lambda x: x["at"]["step"])
     case["script"][0]["inject"] = inj
     yield case
+    # count() with a per-shot plan that starts a move it does not wait for and copes with a failure inside the shot:
+    # the status fails at some moment during the second shot (swept over the shot, including the instant at which
+    # trigger_and_read's 'create' is processed); the handled failure costs that shot's event at most, never a repetition
+    for j in range(3):
+        S2 = pg.S
+        shot = [
+            msg(S2, "set", "m1", {"var": "never"} if False else 1.0 + j, group=f"free{j}"),
+            {"op": "try", "site": S2(), "body": [{"op": "stub", "name": "trigger_and_read", "args": [{"devs": ["d1"]}]}], "handlers": [{"exc": "FailedStatus", "body": [msg(S2, "null")], "reraise": False}]},
+        ]
+        c = {
+            "prop": ID,
+            "seed": seed,
+            "variant": f"handled-failure-in-shot-{j}",
+            "sim": {"handle_cost": rng.choice([0.0, 1e-4, 1e-3])},
+            "re": {},
+            "devices": copy.deepcopy(specs),
+            "expect": {"num": 4, "handled": True},
+            "script": [{"do": "call", "plan": [{"op": "plan", "name": "count", "args": [{"devs": ["d1"]}], "kw": {"num": 4, "delay": 0, "per_shot": {"planfn": shot}}}], "main": True}],
+        }
+        td = rng.choice([0.0, 0.1, 0.3])
+        c["devices"]["d1"]["trigger_delay"] = td
+        c["devices"]["d1"].pop("async", None)
+        c["devices"]["m1"]["velocity"] = 0.01  # the move outlasts the shots: its status is pending throughout
+        c["devices"]["m1"]["faults"] = {"set#1": {"kind": "status_fail", "exc": "RuntimeError", "delay": round(td + rng.choice([0.0, 0.0, 1e-4, 2e-4, 5e-4, 1e-3, 2e-3, 3e-3, 5e-3]), 6)}}
+        yield c
 
 
 def check(res):
@@ -88,6 +113,19 @@ def check(res):
     if res.aborted:
         return out
     exp = res.case["expect"]
+    if exp.get("handled"):
+        inv = v.invocations[0]
+        last = inv.calls[-1]
+        res.notes["handled_failure_in_shot"] = 1
+        shots = len([e for e in inv.events if e.kind == "msg" and e.d["cmd"] == "trigger"])
+        thrown_at = [e.d.get("site") for e in inv.events if e.kind == "plan" and e.d["what"] == "thrown" and e.d["exc"] == "FailedStatus"]
+        if last.outcome == "raise" and last.exc == "FailedStatus":
+            return out  # the failure arrived outside the shot's own try block: the plan legitimately ends
+        if last.outcome != "return":
+            out.append(V("handled-failure-broke-the-repetitions", f"count(num=4) whose only failure was handled inside the shot ended {last.outcome}/{last.exc}: {last.end.d['text'][:120]} after {shots} shots", shots=shots))
+        elif shots != exp["num"]:
+            out.append(V("repetition-count", f"{shots} repetitions ran, expected {exp['num']} (one failure, handled inside the shot)", got=shots, want=exp["num"]))
+        return out
     num, delays, form = exp["num"], exp["delays"], exp["form"]
     inv = v.invocations[0]
     last = inv.calls[-1]
